@@ -124,7 +124,7 @@ theorem live_append {ps : List Proposal} {c : List Nat} {e : TempEntry} (p0 : Pr
 
 /-! ### hooks -/
 
-theorem hookMsgs_ok {c : Cfg} {total : Int} {id : Nat} {msgs : List PMsg} {st st' : Store}
+theorem hookMsgs_ok {c : Cfg} {total : Coins} {id : Nat} {msgs : List PMsg} {st st' : Store}
     (h : StoreOK c st) (hne : ∀ m ∈ msgs, ∀ a ∈ m.addrs, a ≠ "")
     (hs : hookMsgs c total id st msgs = .ok st') :
     StoreOK c st' ∧ st'.perm = st.perm ∧
@@ -144,7 +144,6 @@ theorem hookMsgs_ok {c : Cfg} {total : Int} {id : Nat} {msgs : List PMsg} {st st
           ∀ e ∈ st1.temp, e ∈ st.temp ∨ (e.id = id ∧ e.addr ∈ m.addrs) := by
         have key : st1 = st ∨ addTempEntries c m.isSanction id st m.addrs = .ok st1 := by
           unfold hookMsg at hm
-          simp only at hm
           cases ha : addTempEntries c m.isSanction id st m.addrs <;> rw [ha] at hm <;>
             split_ifs at hm <;> simp_all
         rcases key with rfl | ha
